@@ -26,7 +26,9 @@ input and the environments' action logs are all keyed by agent id.
   (provenance text of every field at every position) is diffed with the implementation's.
 
 The single-environment `PettingZooAutoResetParallelWrapper` is checked the same way in-process.
-Every vec env is closed in `finally`; no worker outlives a case; every wait has a timeout.
+Every vec env is closed in `finally`; no worker outlives a case.  The public blocking calls are used exactly
+as a caller uses them (no timeouts: a timeout makes the parent poll every pipe in index order first, which
+hides the order in which the workers really finish); a SIGALRM wall-clock guard per case bounds a hang.
 """
 from __future__ import annotations
 
@@ -48,7 +50,6 @@ _PP = [str(REPO), str(Path(__file__).resolve().parent)]
 os.environ["PYTHONPATH"] = os.pathsep.join(
     _PP + [p for p in os.environ.get("PYTHONPATH", "").split(os.pathsep) if p and p not in _PP])
 
-WAIT_S = 30.0
 CASE_S = 120
 DTYPES = ["float32", "float64", "int8", "uint8", "int16", "uint16", "int32", "uint32", "int64", "uint64"]
 AGENT_NAMES = ["agent_0", "agent_1", "other_agent_0"]
@@ -333,8 +334,7 @@ def run_impl(case, ops):
         vec = make_vec(case)
         for op in ops:
             if op[0] == "reset":
-                vec.reset_async(seed=op[1])
-                ret_obs, vinfo = vec.reset_wait(timeout=WAIT_S)
+                ret_obs, vinfo = vec.reset(seed=op[1])
                 rec = {"op": "reset", "obs": snapshot_obs(case, ret_obs), "info": info_at(vinfo, ags, n)}
             else:
                 ret_obs, rew, term, trunc, vinfo = vec.step(action_dict(case, op[1], op[2] if len(op) > 2 else None))
@@ -365,27 +365,6 @@ def run_impl(case, ops):
     if not failed and any("survived" in x for x in notes):
         err = err or "; ".join(notes)
     return records, err, logs, notes
-
-
-# PettingZooVecEnv.step blocks in step_wait() without a timeout; give every blocking wait of the class a
-# timeout while a case runs, so that a dead worker is an outcome and not a hang of the check
-def _install_wait_timeouts():
-    from agilerl.vector import pz_async_vec_env as m
-    if getattr(m.AsyncPettingZooVecEnv, "_verif_timeouts", False):
-        return
-    orig_step_wait = m.AsyncPettingZooVecEnv.step_wait
-    orig_call_wait = m.AsyncPettingZooVecEnv.call_wait
-
-    def step_wait(self, timeout=None):
-        return orig_step_wait(self, WAIT_S if timeout is None else timeout)
-
-    def call_wait(self, timeout=None):
-        return orig_call_wait(self, WAIT_S if timeout is None else timeout)
-
-    step_wait._verif_orig, call_wait._verif_orig = orig_step_wait, orig_call_wait
-    m.AsyncPettingZooVecEnv.step_wait = step_wait
-    m.AsyncPettingZooVecEnv.call_wait = call_wait
-    m.AsyncPettingZooVecEnv._verif_timeouts = True
 
 
 # ----------------------------------------------------------------------------- canonical text (model diff)
@@ -566,7 +545,6 @@ def provenance_oracle(case, ops, records, logs) -> tuple[list[str], list[str]]:
 # ----------------------------------------------------------------------------- one vec case
 def eval_case(chk: Check, case, ops):
     """-> dict(problems, diff, impl_lines, model_out, tags, notes)"""
-    _install_wait_timeouts()
     records, err, logs, notes = run_impl(case, ops)
     problems, tags = [], []
     if err:
@@ -869,10 +847,10 @@ SELFTEST_CASE = {
     "obs": [{"kind": "vector", "parts": [["o", [7], "float32"]]},
             {"kind": "dict", "parts": [["pos", [3], "int16"], ["img", [2, 2, 2], "uint8"]]}],
     "act": [0, 2],
-    "envs": [{"lens": [2], "kinds": ["term"], "leave": [0, 0], "rev_dicts": False},
-             {"lens": [3], "kinds": ["trunc"], "leave": [0, 0], "rev_dicts": False},
-             {"lens": [4, 1], "kinds": ["mixed"], "leave": [0, 0], "rev_dicts": False}],
-    "copy": True, "container": "array", "context": None, "case_seed": 7,
+    "envs": [{"lens": [2], "kinds": ["term"], "leave": [0, 0], "rev_dicts": False, "layout": "transposed", "delay_ms": 40},
+             {"lens": [3], "kinds": ["trunc"], "leave": [0, 0], "rev_dicts": False, "layout": "moveaxis", "delay_ms": 0},
+             {"lens": [4, 1], "kinds": ["mixed"], "leave": [0, 0], "rev_dicts": False, "layout": "fortran", "delay_ms": 20}],
+    "copy": True, "container": "array", "context": None, "case_seed": 7, "completion": "random",
     "ops": [["reset", 11]] + [["step", [[(s + i) % 5 for i in range(3)],
                                         [[(s - 4 + i) / 8.0, (i + 1) / 8.0] for i in range(3)]],
                                [1, 0] if s % 2 else [0, 1]] for s in range(7)],
@@ -1006,16 +984,61 @@ def selftest(chk: Check) -> None:
         m._async_worker = orig_worker
     # 5. rewards gathered from the pipes in the wrong order
     orig_wait = m.AsyncPettingZooVecEnv.step_wait
-    inner = getattr(orig_wait, "_verif_orig", orig_wait)
 
     def bad_wait(self, timeout=None):
-        o, r, te, tr, i = inner(self, WAIT_S if timeout is None else timeout)
+        o, r, te, tr, i = orig_wait(self, timeout)
         return o, {a: v[::-1].copy() for a, v in r.items()}, te, tr, i
     m.AsyncPettingZooVecEnv.step_wait = bad_wait
     try:
         expect("rewards returned in reversed environment order")
     finally:
         m.AsyncPettingZooVecEnv.step_wait = orig_wait
+    # 5b. replies drained as they arrive, reward / termination / truncation lists built in ARRIVAL order
+    from multiprocessing.connection import wait as mp_wait
+
+    def arrival_wait(self, timeout=None):
+        self._state = m.AsyncState.DEFAULT
+        rew, term, trunc = ({ag: [] for ag in self.agents} for _ in range(3))
+        infos, pending = {}, {pipe: i for i, pipe in enumerate(self.parent_pipes)}
+        while pending:
+            for pipe in mp_wait(list(pending)):
+                i = pending.pop(pipe)
+                ret, ok = pipe.recv()
+                if not ok:
+                    raise RuntimeError("worker failed")
+                for ag in self.agents:
+                    rew[ag].append(ret[0][ag])
+                    term[ag].append(ret[1][ag])
+                    trunc[ag].append(ret[2][ag])
+                infos = self._add_info(infos, ret[3], i)
+        obs = {ag: self.observations[ag] for ag in self.observations.keys()} if self.copy else self.observations
+        return (obs, {a: np.array(v) for a, v in rew.items()}, {a: np.array(v) for a, v in term.items()},
+                {a: np.array(v) for a, v in trunc.items()}, infos)
+    m.AsyncPettingZooVecEnv.step_wait = arrival_wait
+    try:
+        expect("rewards / terminations / truncations gathered in the order the workers finish")
+    finally:
+        m.AsyncPettingZooVecEnv.step_wait = orig_wait
+    # 5c. the worker flattens observations in memory order instead of logical (row-major) order
+    orig_write2 = m.write_to_shared_memory
+
+    def memory_order_write(index, observation, shared_memory, obs_space):
+        def k_order(x):
+            return np.asarray(x).ravel(order="K")
+        obs = {}
+        for agent, o in observation.items():
+            if isinstance(o, dict):
+                obs[agent] = {k: k_order(v) for k, v in o.items()}
+            elif isinstance(o, tuple):
+                obs[agent] = tuple(k_order(v) for v in o)
+            else:
+                obs[agent] = k_order(o)
+        return orig_write2(index, obs, shared_memory, obs_space)
+    m.write_to_shared_memory = memory_order_write
+    try:
+        expect("non-contiguous observations flattened in memory order")
+    finally:
+        m.write_to_shared_memory = orig_write2
     # 6. wrapper that ignores truncation (D6 re-seeded)
     orig_wstep = pw.PettingZooAutoResetParallelWrapper.step
 
